@@ -138,7 +138,25 @@ struct Succ {
 
 /// Explores all action sequences up to the limits, de-duplicating on the digest.
 pub fn bfs<S: Sys>(sys: &S, label: &str, limits: &BfsLimits, report: &Report) -> BfsStats {
+    if let Some(req) = crate::common::replay_req() {
+        // `vcheck replay`: re-execute the recorded schedule on the named system, twice
+        if req.label == label && req.actions.iter().all(|a| (*a as usize) < sys.num_actions()) {
+            println!("REPLAY system={label} ({} steps)", req.actions.len());
+            for (i, a) in req.actions.iter().enumerate() {
+                println!("  {:>2}. {}", i + 1, sys.describe(*a));
+            }
+            let (v1, d1) = replay_last(sys, &req.actions);
+            let (v2, d2) = replay_last(sys, &req.actions);
+            for (k, what) in &v1 {
+                println!("  reproduced: key={k} what={what}");
+            }
+            let keys = |v: &Vec<(String, String)>| { let mut k: Vec<String> = v.iter().map(|x| x.0.clone()).collect(); k.sort(); k.dedup(); k };
+            crate::common::REPLAY_RESULTS.lock().unwrap().push((label.to_string(), keys(&v1), keys(&v2), d1 == d2));
+        }
+        return BfsStats::default();
+    }
     let mut stats = BfsStats::default();
+    let mut confirmed: HashSet<String> = HashSet::new();
     let mut seen: HashSet<u64> = HashSet::new();
     let mut outcomes: HashSet<u64> = HashSet::new();
     let w0 = sys.init();
@@ -224,6 +242,18 @@ pub fn bfs<S: Sys>(sys: &S, label: &str, limits: &BfsLimits, report: &Report) ->
                     stats.transitions += 1;
                     stats.replayed_steps += s.hist.len();
                     for (key, what) in &s.violations {
+                        // before trusting a failure: the same schedule must fail the same way, twice
+                        if !key.starts_with("panic:") && confirmed.insert(key.clone()) {
+                            let (v1, d1) = replay_last(sys, &s.hist);
+                            let (v2, d2) = replay_last(sys, &s.hist);
+                            let has = |v: &Vec<(String, String)>| v.iter().any(|x| &x.0 == key);
+                            if !(has(&v1) && has(&v2)) || d1 != d2 {
+                                crate::common::machinery_failure(&format!(
+                                    "violation {key} in system {label} did not reproduce when its schedule {:?} was replayed twice (run 1: {:?}, run 2: {:?}, digests equal: {}); uncontrolled nondeterminism in the harness",
+                                    s.hist, v1.iter().map(|x| &x.0).collect::<Vec<_>>(), v2.iter().map(|x| &x.0).collect::<Vec<_>>(), d1 == d2
+                                ));
+                            }
+                        }
                         report.violation(
                             key.clone(),
                             what.clone(),
@@ -277,7 +307,40 @@ pub fn bfs<S: Sys>(sys: &S, label: &str, limits: &BfsLimits, report: &Report) ->
     stats
 }
 
+thread_local! {
+    static REPLAYING: std::cell::Cell<bool> = const { std::cell::Cell::new(false) };
+}
+
+/// True while a schedule is being re-executed for confirmation (memoisation must be bypassed).
+pub fn replaying() -> bool {
+    REPLAYING.with(|r| r.get()) || crate::common::replay_req().is_some()
+}
+
+/// Re-executes a schedule exactly as the exploration did (oracle on the last step only);
+/// returns the violations of the last step and the digest of the final state.
+pub fn replay_last<S: Sys>(sys: &S, actions: &[u16]) -> (Vec<(String, String)>, u64) {
+    REPLAYING.with(|r| r.set(true));
+    let r = catch(|| {
+        let mut w = sys.init();
+        let mut v = Vec::new();
+        for (i, a) in actions.iter().enumerate() {
+            let o = sys.step(&mut w, *a, i + 1 == actions.len());
+            if i + 1 == actions.len() {
+                v = o.violations;
+            }
+        }
+        let d = sys.digest(&w);
+        (v, d)
+    });
+    REPLAYING.with(|r| r.set(false));
+    match r {
+        Ok(x) => x,
+        Err(msg) => (vec![(format!("panic:{}", panic_class(&msg)), msg)], 0),
+    }
+}
+
 /// Replays a recorded action list with the oracle on; returns the violations seen.
+#[allow(dead_code)]
 pub fn replay<S: Sys>(sys: &S, actions: &[u16]) -> Vec<(String, String)> {
     let mut out = Vec::new();
     let r = catch(|| {
